@@ -790,7 +790,7 @@ pub fn prop() -> DiceProp {
         nightly: false,
         check_only: false,
         ndice: 260,
-        quick: (800, 1),
+        quick: (2000, 1),
         thorough: (1600, 6),
         build,
         fixed: no_fixed,
